@@ -554,3 +554,8 @@ _add(
     m("gcp-reunite-miss-drops-job", "redun/executors/gcp_batch.py", "            else:\n                # Batch task is no longer available, submit the job anew.\n                batch_task_name = None\n", "", "C10.7"),
     m("aws-batch-reunite-miss-drops-job", "redun/executors/aws_batch.py", "            else:\n                batch_job_id = None\n\n        # Job arrayer will handle", "\n        # Job arrayer will handle", "C10.7"),
 )
+_add(
+    "C30",
+    m("copy-skip-returns-unrehashed-destination", "redun/file.py", "            dest_file.update_hash()\n            return dest_file\n\n        if self.filesystem.name == \"local\"", "            return dest_file\n\n        if self.filesystem.name == \"local\"", "C30.1"),
+    m("s3-listing-keys-unfiltered", "redun/file.py", "                if dir_key and obj[\"Key\"] != dir_key and not obj[\"Key\"].startswith(dir_key + \"/\"):\n                    continue\n", "", "C30.7"),
+)
